@@ -4,6 +4,7 @@ from fractions import Fraction
 
 import usersemirings as us
 from common import MachineryError
+from project import OutOfModelRange
 from gops import SR, srmodel, dec_w, guarded, CallTimeout
 from project import enc_w
 from genlm.grammar.linear import WeightedGraph
@@ -264,6 +265,8 @@ def event(fn, args, site=None, feat=None, timeout=30):
         except CallTimeout:
             # a slow machine must not look like a hanging library: one more attempt with four times the budget
             e = guarded(lambda: FUNCS[fn](args), 4 * timeout)
+    except OutOfModelRange:
+        e = {"op": fn, "skip": "numeric-range"}      # (a weight beyond the model's number range: counted, not judged)
     except MachineryError:
         raise
     except CallTimeout:
@@ -278,11 +281,13 @@ def event(fn, args, site=None, feat=None, timeout=30):
     return e
 
 
-def rand_graph(rng, srname, n, m, contractive=False, acyclic=False):
+def rand_graph(rng, srname, n, m, contractive=False, acyclic=False, leq1=False, signed=False):
     from families import weights_for
     R = SR[srname]
     if contractive:
         ws = [[1, 4], [1, 8], [1, 8]]
+    elif leq1:
+        ws = [[1, 2], [1, 1], [1, 4], [1, 1]]          # max-times: no cycle gains, some cycles weigh exactly one
     else:
         ws = [enc_w(R, us.mk(R, w)) for w in weights_for(R)]
     edges = []
@@ -297,6 +302,15 @@ def rand_graph(rng, srname, n, m, contractive=False, acyclic=False):
             continue
         out[i] = out.get(i, 0) + 1
         edges.append([i, j, rng.choice(ws)])
+    if signed and edges:
+        # signed real weights: an entry that is written, cancelled to exactly zero (and sometimes written again),
+        # next to a real edge in the opposite direction
+        i, j, w = rng.choice(edges)
+        edges.append([i, j, [-w[0], w[1]]])
+        if rng.random() < 0.5:
+            edges.append([i, j, rng.choice(ws)])
+        if i != j:
+            edges.append([j, i, rng.choice(ws)])
     return {"n": n, "edges": edges}
 
 
